@@ -30,6 +30,8 @@
   kernel evaluation of `FnA.analyse` on a minimal body.
 -/
 import RattrProofs.Lemmas.VisitCtx
+import RattrProofs.Lemmas.RootContext
+import RattrProofs.Lemmas.FileAnalyser
 
 namespace Rattr.C17
 open Rattr Rattr.FnA Rattr.Strs
@@ -687,5 +689,203 @@ theorem C17_balance_needs_nonempty_chain :
     (match visit env1 [] (.assign [.name (S "x") .store] .const) { ctx := [] } with
      | .ok s => s.ctx.length
      | _ => 0) = 1 := by decide +kernel
+
+end Rattr.C17
+
+/-! ## Stage S2 inside the model: the root context (`RattrModel/RootContext.lean`)
+
+The "module-level definition, import or assignment" the property speaks of is what
+`compile_root_context` binds. Model `RootCtx.compile`, tied to the code by op `root_context`
+(py/props/filestage.py) and by the generated table `Generated/RC.lean`. `plainL`: no module-level
+`del` and no starred import among the registered statements. -/
+
+namespace Rattr.C17
+open Rattr Rattr.FnA Rattr.Strs Rattr.RootCtx
+
+/-- Tie A: the `visit_*` methods of `RootContextBuilder` (by `dir()`) are exactly the ones the
+model's dispatch covers. -/
+theorem tieA_rootBuilder_visitors :
+    FileA.sameMembers Generated.RC.rootBuilderVisitors RootCtx.visitorNames = true := by decide
+
+theorem tieA_module_dunders :
+    Generated.RC.moduleDunders.map String.toList = RootCtx.moduleDunders := by decide
+
+theorem compile_split (f : Facts) (bs : List Str) (pre rest : List Top) (s' : St)
+    (h : compile f bs (pre ++ rest) = .ok s') :
+    ∃ s1, compile f bs pre = .ok s1 ∧ registerL f rest s1 = .ok s' := by
+  unfold compile at h ⊢
+  rw [registerL_append] at h
+  cases hr : registerL f pre { ctx := initial bs } with
+  | ok s1 => rw [hr] at h; exact ⟨s1, rfl, h⟩
+  | fatal s1 d => rw [hr] at h; cases h
+  | crash s1 e => rw [hr] at h; cases h
+
+theorem compile_ext (f : Facts) (bs : List Str) (body : List Top) (s' : St) (hp : plainL body = true)
+    (h : compile f bs body = .ok s') : Ext (initial bs) s'.ctx :=
+  registerL_ext f body { ctx := initial bs } s' hp (initial_ne bs) h
+
+theorem dict_contains_of_mem (l : Dict Str Sym) (x : Str) (h : x ∈ Dict.keys l) : Dict.contains l x = true := by
+  induction l with
+  | nil => cases h
+  | cons p r ih =>
+    obtain ⟨k, v⟩ := p
+    by_cases hk : k = x
+    · simp [Dict.contains, Dict.get?, hk]
+    · have : x ∈ Dict.keys r := by
+        simp only [Dict.keys, List.map_cons, List.mem_cons] at h
+        rcases h with h | h
+        · exact absurd h.symm hk
+        · exact h
+      simpa [Dict.contains, Dict.get?, hk] using ih this
+
+/-- `rootContext_builtins`: every builtin name (and every module dunder) is bound in the context
+the builder starts from, and stays bound through any module without `del` / starred imports. -/
+theorem rootContext_builtins (f : Facts) (bs : List Str) (body : List Top) (s' : St)
+    (hp : plainL body = true) (h : compile f bs body = .ok s') :
+    ∀ b, (b ∈ bs ∨ b ∈ RootCtx.moduleDunders) → Context.contains s'.ctx b = true := by
+  intro b hb
+  apply (compile_ext f bs body s' hp h).contains
+  have : b ∈ Dict.keys ((RootCtx.moduleDunders.map fun n => (n, Context.nameSym n)) ++
+      (bs.map fun n => (n, builtinSym n))) := by
+    simp only [Dict.keys, List.map_append, List.map_map, List.mem_append, List.mem_map, Function.comp]
+    rcases hb with hb | hb
+    · exact Or.inr ⟨b, hb, rfl⟩
+    · exact Or.inl ⟨b, hb, rfl⟩
+  have hc := dict_contains_of_mem _ b this
+  simp only [initial, Context.contains, Context.get?]
+  simp only [Dict.contains] at hc
+  cases hg : Dict.get? ((RootCtx.moduleDunders.map fun n => (n, Context.nameSym n)) ++
+      (bs.map fun n => (n, builtinSym n))) b with
+  | none => simp [hg] at hc
+  | some v => simp
+
+/-- … in particular every name of the generated builtin table. -/
+theorem rootContext_builtins_generated (f : Facts) (body : List Top) (s' : St) (hp : plainL body = true)
+    (h : compile f (Generated.RC.builtins.map String.toList) body = .ok s') :
+    ∀ b ∈ Generated.RC.builtins, Context.contains s'.ctx b.toList = true :=
+  fun b hb => rootContext_builtins f _ body s' hp h b.toList (Or.inl (List.mem_map.mpr ⟨b, hb, rfl⟩))
+
+/-- `rootContext_order` (determinism, C05): the symbol table after a prefix of the module is a
+PREFIX of the table after the whole module, and no binding made by the prefix is changed later —
+symbols appear in declaration order. -/
+theorem rootContext_order (f : Facts) (bs : List Str) (pre post : List Top) (s2 : St)
+    (hpre : plainL pre = true) (hpost : plainL post = true) (h : compile f bs (pre ++ post) = .ok s2) :
+    ∃ s1, compile f bs pre = .ok s1 ∧ headKeys s1.ctx <+: headKeys s2.ctx ∧
+      ∀ x v, Context.get? s1.ctx x = some v → Context.get? s2.ctx x = some v := by
+  obtain ⟨s1, h1, h2⟩ := compile_split f bs pre post s2 h
+  have e1 := compile_ext f bs pre s1 hpre h1
+  have e2 := registerL_ext f post s1 s2 hpost e1.ne h2
+  exact ⟨s1, h1, e2.keys, e2.get⟩
+
+/-- `rootContext_binds_defs`: a module-level `def` / `async def` is bound at the end of the module
+(to the `Func` with its interface when the name was free at that point: first binding wins). -/
+theorem rootContext_binds_defs (f : Facts) (bs : List Str) (pre post : List Top) (name : Str) (ps : Params)
+    (b : List Node) (d : List Ann.Deco) (a : Bool) (s' : St) (hpost : plainL post = true)
+    (h : compile f bs (pre ++ .funcDef name ps b d a :: post) = .ok s') :
+    ∃ s1, compile f bs pre = .ok s1 ∧
+      Context.contains s'.ctx (funcSym name ps.iface).name = true ∧
+      (Context.contains s1.ctx (funcSym name ps.iface).name = false →
+        Context.get? s'.ctx (funcSym name ps.iface).name = some (funcSym name ps.iface)) := by
+  obtain ⟨s1, h1, h2⟩ := compile_split f bs pre _ s' h
+  exact ⟨s1, h1, binds_of_add f _ post s1 s' _ (register_funcDef f name ps b d a s1) hpost h2⟩
+
+/-- … a module-level `class` (kind `Class`, interface of its last `__init__`, else any). -/
+theorem rootContext_binds_classes (f : Facts) (bs : List Str) (pre post : List Top) (name : Str)
+    (bases : List Node) (body : List Top) (d : List Ann.Deco) (s' : St) (hpost : plainL post = true)
+    (h : compile f bs (pre ++ .classDef name bases body d :: post) = .ok s') :
+    ∃ s1, compile f bs pre = .ok s1 ∧
+      Context.contains s'.ctx (classSym name body).name = true ∧
+      (Context.contains s1.ctx (classSym name body).name = false →
+        Context.get? s'.ctx (classSym name body).name = some (classSym name body)) := by
+  obtain ⟨s1, h1, h2⟩ := compile_split f bs pre _ s' h
+  exact ⟨s1, h1, binds_of_add f _ post s1 s' _ (register_classDef f name bases body d s1) hpost h2⟩
+
+/-- … a named lambda `x = lambda ps: body` (kind `Func` with the lambda's interface). -/
+theorem rootContext_binds_lambdas (f : Facts) (bs : List Str) (pre post : List Top) (x : Str) (c : ECtx)
+    (extra : List Node) (ps : Params) (body : Node) (s' : St) (hpost : plainL post = true)
+    (h : compile f bs (pre ++ .assign [.name x c] extra (some (.lam ps body)) :: post) = .ok s') :
+    ∃ s1, compile f bs pre = .ok s1 ∧
+      Context.contains s'.ctx (funcSym x ps.iface).name = true ∧
+      (Context.contains s1.ctx (funcSym x ps.iface).name = false →
+        Context.get? s'.ctx (funcSym x ps.iface).name = some (funcSym x ps.iface)) := by
+  obtain ⟨s1, h1, h2⟩ := compile_split f bs pre _ s' h
+  exact ⟨s1, h1, binds_of_add f _ post s1 s' _ (register_lambda f x c extra ps body s1) hpost h2⟩
+
+/-- … a valid namedtuple declaration `P = namedtuple("P", …)` (kind `Class`, `self` + fields). -/
+theorem rootContext_binds_namedtuples (f : Facts) (bs : List Str) (pre post : List Top) (x : Str) (c : ECtx)
+    (extra : List Node) (fn : Node) (args : List Node) (kwn : List (Option Str)) (kwv : List Node)
+    (attrs : List Str) (s' : St) (hnt : targetIsNamedtuple (.call fn args kwn kwv) = true)
+    (hsig : namedtupleSignature args = .ok attrs) (hpost : plainL post = true)
+    (h : compile f bs (pre ++ .assign [.name x c] extra (some (.call fn args kwn kwv)) :: post) = .ok s') :
+    ∃ s1, compile f bs pre = .ok s1 ∧
+      Context.contains s'.ctx (clsSym x ⟨[], attrs, none, [], none⟩).name = true ∧
+      (Context.contains s1.ctx (clsSym x ⟨[], attrs, none, [], none⟩).name = false →
+        Context.get? s'.ctx (clsSym x ⟨[], attrs, none, [], none⟩).name =
+          some (clsSym x ⟨[], attrs, none, [], none⟩)) := by
+  obtain ⟨s1, h1, h2⟩ := compile_split f bs pre _ s' h
+  exact ⟨s1, h1, binds_of_add f _ post s1 s' _ (register_namedtuple f x c extra fn args kwn kwv attrs s1 hnt hsig) hpost h2⟩
+
+/-- `rootContext_binds_imports` (`import a, b as c`): each alias binds exactly its LOCAL name
+(`asname or name`) — for `import a.b` that is the key `a.b`. -/
+theorem rootContext_binds_imports (f : Facts) (aliases : List Alias) (s s' : St) (hs : s.ctx ≠ [])
+    (hn : noStarAliases aliases = true) (h : register f (.importStmt aliases) s = .ok s') :
+    ∀ a ∈ aliases, Context.contains s'.ctx (aliasLocal a) = true := by
+  rw [register.eq_def] at h
+  exact (addPlainImports_binds f aliases _ s' (by split <;> simpa using hs) hn h).2
+
+/-- … `from m import a, b as c` (absolute): the local names, qualified `m.a`. -/
+theorem rootContext_binds_from_imports (f : Facts) (m : Str) (aliases : List Alias) (abs : Str) (sf co : Bool)
+    (s s' : St) (hs : s.ctx ≠ []) (hstar : isStarred aliases = false) (hn : noStarAliases aliases = true)
+    (h : register f (.importFrom (some m) 0 aliases abs sf co) s = .ok s') :
+    ∀ a ∈ aliases, Context.contains s'.ctx (aliasLocal a) = true := by
+  rw [register.eq_def] at h
+  simp only [visitImportFrom, hstar, Bool.false_and, Bool.false_eq_true, if_false, bne_self_eq_false] at h
+  exact (addFromImports_binds f m aliases s s' hs hn h).2
+
+/-- … relative `from .m import a`: the local names, qualified `<abs>.a` with the resolved name. -/
+theorem rootContext_binds_relative_imports (f : Facts) (m : Option Str) (lvl : Nat) (aliases : List Alias)
+    (abs : Str) (sf : Bool) (s s' : St) (hs : s.ctx ≠ []) (hl : lvl ≠ 0) (hstar : isStarred aliases = false)
+    (hn : noStarAliases aliases = true) (h : register f (.importFrom m lvl aliases abs sf true) s = .ok s') :
+    ∀ a ∈ aliases, Context.contains s'.ctx (aliasLocal a) = true := by
+  rw [register.eq_def] at h
+  simp only [visitImportFrom, hstar, Bool.false_and, Bool.false_eq_true, if_false, bne_iff_ne, ne_eq, hl,
+    not_false_eq_true, if_true, Bool.not_true] at h
+  exact (addFromImports_binds f abs aliases _ s' (by split <;> simpa using hs) hn h).2
+
+def factsAB : Facts := { mods := [("a.b".toList, { originFound := true, modExists := true })] }
+
+/-- the formal content of the C17 finding "a dotted import does not bind the top package":
+after `import a.b` the root context holds the key `a.b` and NOT `a` (Python binds `a`). -/
+theorem rootContext_cex_dotted_import_binds_dotted_key :
+    (match compile factsAB [] [.importStmt [⟨"a.b".toList, none⟩]] with
+     | .ok s => (Context.contains s.ctx "a.b".toList, Context.contains s.ctx "a".toList)
+     | _ => (false, false)) = (true, false) := by decide +kernel
+
+/-- `rootContext_binds_assignments`: after a module-level assignment whose value is neither a
+lambda nor a namedtuple declaration nor contains a walrus, every name `unravel_names` yields for
+the targets (the BASE names: `a.b = …` binds `a`) is bound. -/
+theorem rootContext_binds_assignments (f : Facts) (targets extra : List Node) (s s' : St) (hs : s.ctx ≠ [])
+    (h : register f (.assign targets extra none) s = .ok s') : TargetsBound targets s' := by
+  rw [register.eq_def] at h
+  exact addIdentifiersL_binds targets s s' hs h
+
+theorem rootContext_binds_assignments_value (f : Facts) (targets extra : List Node) (v : Node) (s s' : St)
+    (hs : s.ctx ≠ []) (hl : lambdaInRhs v = false) (hnt : namedtupleInRhs v = false)
+    (hw : isWalrus v = false) (hseq : isTupleOrList v = false)
+    (h : register f (.assign targets extra (some v)) s = .ok s') : TargetsBound targets s' := by
+  rw [register.eq_def] at h
+  simp only [visitAssignment] at h
+  rw [assignV.eq_def] at h
+  split at h
+  · simp [isWalrus] at hw
+  · rename_i k elts c
+    simp only [hl, hnt, hseq, Bool.false_eq_true, if_false] at h
+    exact addIdentifiersL_binds targets s s' hs h
+  · simp only [hl, hnt, Bool.false_eq_true, if_false] at h
+    exact addIdentifiersL_binds targets s s' hs h
+
+/-- the hypotheses are satisfiable: `def f(a): …; x = 1` is plain and compiles. -/
+example : plainL [.funcDef "f".toList ⟨[], ["a".toList], none, [], none⟩ [] [] false,
+    .assign [.name "x".toList .store] [] (some .const)] = true := by decide
 
 end Rattr.C17
